@@ -123,6 +123,7 @@ public:
     {
       _loop.detach();
     }
+    _loopId.store(std::thread::id{}, std::memory_order_release);
   }
 
   /// \brief Register a deleter run by the detached I/O thread after loop()
@@ -221,6 +222,8 @@ public:
     {
       _loop = std::thread([this]
       {
+        // Publish the I/O thread id before any callback can run on this thread.
+        _loopId.store(std::this_thread::get_id(), std::memory_order_release);
         // Block SIGPIPE on this I/O thread only. SSL_write uses the underlying
         // send() without MSG_NOSIGNAL, so writing to a closed peer can deliver
         // SIGPIPE. Blocking it per-thread avoids process-wide side effects.
@@ -273,6 +276,7 @@ public:
     {
       _loop.join();
     }
+    _loopId.store(std::thread::id{}, std::memory_order_release);
   }
 
   /// \brief Add a listening socket (IPv4/IPv6), optionally with TLS for
@@ -418,7 +422,7 @@ public:
   /// \note Used by SyncAsyncTransport to detect when sendSync() is called from I/O thread context
   std::thread::id getIoThreadId() const override
   {
-    return _loop.get_id();
+    return _loopId.load(std::memory_order_acquire);
   }
 
   // ── EngineBase overrides ──────────────────────────────────────────────────
@@ -2821,6 +2825,11 @@ private:
   // without revisiting this invariant.
   int _epollFd{-1}, _eventFd{-1}, _timerFd{-1};
   std::thread _loop;
+  // Id of the I/O thread as getIoThreadId() reports it (default id when no loop
+  // thread is attached). Kept in an atomic because getIoThreadId() is called from
+  // arbitrary threads (the sync-operation guards in Transport) concurrently with
+  // start()/stop()/detachForTermination(), which assign/join/detach _loop.
+  std::atomic<std::thread::id> _loopId{};
   // Deferred self-destruct deleter (delete-this-at-thread-end). Written and read
   // ONLY on the I/O thread (set in scheduleSelfDestruct pre-detach; run in the
   // loop-lambda epilogue post-loop()); no synchronization — see EngineBase.
